@@ -1,5 +1,5 @@
 (** C04 — user-code failures are contained: null plus error at the field, never a crash. *)
-From GV Require Import Base.Prelude Model.Exec Proofs.ExecProofs Proofs.ContainProofs.
+From GV Require Import Base.Prelude Model.Exec Proofs.ExecProofs Proofs.ContainProofs Base.Threads Model.ElemPanic Proofs.ElemPanicProofs.
 Open Scope string_scope.
 Open Scope list_scope.
 
@@ -48,3 +48,38 @@ Example C04_nonvacuous :
   /\ complete_spec false [] (plug co (plug ci (NFail (EPanic "boom"))))
      = (Some (TObj [("x", TStr "x"); ("a", TNull); ("y", TStr "y")]), [([PKey "a"; PKey "kids"; PIdx 1], EPanic "boom")]).
 Proof. vm_compute. repeat split. Qed.
+
+
+(** ** a list element whose goroutine panics inside generated code (Model.ElemPanic: the element closures of the list
+    marshaller, every interleaving of the element goroutines and the join).  Whoever waited on the group goes on with
+    the array the slice was made with, in which exactly the panicking elements are null and every other element has
+    its value - no slot is still unset, so serialising cannot crash; one error at the path of each panicking element
+    and none elsewhere; the recover hook ran once per panic. *)
+Theorem C04_list_element_panics_contained : forall plan tr s r sl,
+  erun as_written_elems (einit plan) tr = Some s -> e_joined s = Some (r, sl) ->
+  r = false /\ sl = map final_slot plan /\ map el_errs (e_els s) = map final_errs plan /\
+  e_recovers s = count (fun p => p) plan /\ count unfinished (e_els s) = 0.
+Proof. exact elems_contained_lemma. Qed.
+Print Assumptions C04_list_element_panics_contained.
+
+(** Refuted for the closure that registers the recover handler before [wg.Done()] (deferred calls run
+    last-in-first-out, so [Done] runs first): the join is passed with the panicking element's slot still unset. *)
+Theorem C04_done_before_handler_refuted :
+  exists s sl, erun {| v_done_last := false; v_own_slot := true |} (einit [true; false]) [EL 0; EL 0; EL 1; EL 1; EL 1; EJoin] = Some s /\
+               e_joined s = Some (false, sl) /\ In Unset sl.
+Proof. exact done_before_handler_witness. Qed.
+Print Assumptions C04_done_before_handler_refuted.
+
+(** Refuted for the handler that resets the whole result: a sibling's store then panics - the hook runs twice for one
+    panic, the sibling gets an error of its own, the list comes back empty. *)
+Theorem C04_handler_resets_list_refuted :
+  exists s sl, erun {| v_done_last := true; v_own_slot := false |} (einit [true; false]) [EL 0; EL 0; EL 1; EL 1; EL 0; EL 1; EJoin] = Some s /\
+               e_joined s = Some (true, sl) /\ e_recovers s = 2%nat /\ map el_errs (e_els s) = [1; 1]%nat.
+Proof. exact handler_resets_list_witness. Qed.
+Print Assumptions C04_handler_resets_list_refuted.
+
+Example C04_list_element_nonvacuous :
+  exists s, erun as_written_elems (einit [true; false; true; false])
+              [EL 1; EL 0; EL 2; EL 3; EL 0; EL 1; EL 1; EL 2; EL 3; EL 2; EL 0; EL 3; EJoin]%nat = Some s /\
+            e_joined s = Some (false, [Null; Val; Null; Val]) /\ e_recovers s = 2%nat.
+Proof. exact elems_sample_run. Qed.
